@@ -568,7 +568,13 @@ fn dict_state(d: &mut SuffixArrayDictionary) -> Result<Value, String> {
         let st = d.da_match_max_length(q);
         let all = d.find_all_matches(&q[..q.len().min(maxp)], 5).map_err(|e| format!("find_all_matches failed: {}", e))?;
         for m in &all { if m.dict_position + m.length > text.len() || m.length > q.len() || text[m.dict_position..m.dict_position + m.length] != q[..m.length] { return Err("find_all_matches reports a match that is not there".into()); } }
-        out.push(json!([len, st.depth, all.len()]));
+        // the suffix-array engine on its own: the same depth as the two-level match, the range of the first byte
+        let n = d.data().len();
+        let sa = d.sa_match_continuation(0, n, 0, q);
+        if sa.depth > q.len() || sa.lo > sa.hi || sa.hi > n { return Err("sa_match_continuation leaves the suffix array".into()); }
+        let first = q.first().map(|&b| { let (lo, hi) = d.sa_equal_range(0, n, 0, b); hi.saturating_sub(lo) }).unwrap_or(0);
+        if first != text.iter().filter(|&&b| Some(&b) == q.first()).count() { return Err(format!("sa_equal_range counts {} occurrences of byte {:?}", first, q.first())); }
+        out.push(json!([len, st.depth, all.len(), sa.depth, sa.match_count()]));
     }
     Ok(json!({"text": hex(&text), "min": minp, "max": maxp, "probes": out}))
 }
@@ -1091,7 +1097,9 @@ fn mv_case<T: El>(cx: &mut Ctx, ic: usize, growth: f64, sow: bool, ops: &[Vec<u6
                         else if (&v).into_iter().len() != shadow.len() { Err("ExactSizeIterator::len differs from len".into()) }
                         else if st.len != shadow.len() || st.capacity != v.capacity() || st.read_only != ro { Err("stats() disagrees with the vector".into()) }
                         else if v.memory_usage() != 80 + v.capacity() * T::ES || v.path() != std::path::Path::new(&path) { Err("memory_usage()/path() disagree with the vector".into()) }
-                        else if v.is_empty() != shadow.is_empty() { Err("is_empty disagrees with len".into()) } else { Ok(()) } }
+                        else if v.is_empty() != shadow.is_empty() { Err("is_empty disagrees with len".into()) }
+                        else if st.wasted_space() != (v.capacity() - shadow.len()) * T::ES || st.needs_compaction(2.0) != (v.capacity() > 0 || shadow.is_empty()) || (st.memory_efficiency() - st.utilization * 100.0).abs() > 1e-9 { Err("wasted_space()/needs_compaction()/memory_efficiency() disagree with len and capacity".into()) }
+                        else { Ok(()) } }
                 _ => Ok(()),
             };
             if let Some(keep) = before_frozen {
@@ -1101,6 +1109,9 @@ fn mv_case<T: El>(cx: &mut Ctx, ic: usize, growth: f64, sow: bool, ops: &[Vec<u6
             if v.len() != shadow.len() { problem = Some(format!("op {} {:?}: len {} but a Vec holds {}", k, op, v.len(), shadow.len())); return; }
             if let Some(&w) = shadow.last() { if v.get(shadow.len() - 1).map(|x| x.to()) != Some(w) { problem = Some(format!("op {} {:?}: last element differs in the live vector", k, op)); return; } }
             if matches!(code, 13 | 14 | 16 | 19) || frozen { if v.as_slice().iter().map(|x| x.to()).ne(shadow.iter().copied()) { problem = Some(format!("op {} {:?}: the live vector differs from a Vec after the same operations", k, op)); return; } }
+            // under sync_on_write every operation that changes the content syncs it ("sync changes to disk immediately"); only what is
+            // stored through get_mut / as_mut_slice references waits for the next sync
+            if sow && !frozen && matches!(code, 0 | 1 | 3 | 4 | 7 | 8 | 9 | 12 | 13 | 14 | 19) && states.last() != Some(&mv_state(&shadow)) { last_sync = Some(states.len()); }
             states.push(mv_state(&shadow)); marks.push(trace::len());
             obs.push([v.len() as u64, v.capacity() as u64, std::fs::metadata(&path).map(|m| m.len()).unwrap_or(u64::MAX)]);
         }
@@ -1295,7 +1306,13 @@ fn gen_mv_wide(r: &mut Rng, i: usize) -> (String, usize, f64, bool, Vec<Vec<u64>
             11..=12 => { let s = r.below(len + 1); let e = match r.below(3) { 0 => len, 1 => (s + around(r)).min(len), _ => s + r.below(len - s + 1) };
                          let p = if r.chance(1, 2) || e == s { u64::MAX } else { match r.below(3) { 0 => 0, 1 => e - s - 1, _ => r.below(e - s) } }; ops.push(vec![15, s, e, p]); }
             13..=14 => { ops.push(vec![16, *r.pick(&[1u64, 1, 2, 7, 64]), r.next()]); }
-            15..=16 => { let k = *r.pick(&[1u64, 1, 3, 4, 5, 6, 7, 8, 0]); ops.push(vec![17, k]); if r.chance(1, 2) { ops.push(vec![0, val(r)]); if !matches!(k, 1 | 8) { len += 1; } } }
+            15..=16 => { let k = *r.pick(&[1u64, 1, 3, 4, 5, 6, 7, 8, 0]); ops.push(vec![17, k]);
+                         if matches!(k, 1 | 8) {
+                             // a read-only phase: whatever is asked of the vector, it presents the same content when it is opened for writing again
+                             for _ in 0..r.range(2, 4) { match r.below(8) { 0 => ops.push(vec![0, val(r)]), 1 => ops.push(vec![16, 1, r.next()]), 2 => ops.push(vec![14, 0, len.min(70), val(r)]), 3 => ops.push(vec![13, 1]),
+                                                                             4 => ops.push(vec![2, 0, val(r)]), 5 => ops.push(vec![4]), 6 => ops.push(vec![9, 3, r.next()]), _ => ops.push(vec![7, len + 2, val(r)]) } }
+                             ops.push(vec![17, *r.pick(&[0u64, 5, 6])]); ops.push(vec![18]);
+                         } else if r.chance(1, 2) { ops.push(vec![0, val(r)]); len += 1; } }
             17 => ops.push(vec![18]),
             18 => { let c = match r.below(4) { 0 => 0, 1 => around(r), 2 => (ic as u64).max(1) * 2 + 1, _ => 1025 }; ops.push(vec![19, c, r.next()]); len = c; }
             19 => { ops.push(vec![6]); }
@@ -1307,6 +1324,19 @@ fn gen_mv_wide(r: &mut Rng, i: usize) -> (String, usize, f64, bool, Vec<Vec<u64>
     if r.chance(1, 2) { ops.push(vec![18]); }
     if r.chance(9, 10) { ops.push(vec![if r.chance(1, 3) { 11 } else { 10 }]); }
     (ty, ic, growth, sow, ops, preset)
+}
+/// sync_on_write: every content-changing entry point as the *last* operation of a history (no sync() after it): the file must
+/// hold what the vector held; i = which entry point
+fn gen_mv_sow(r: &mut Rng, i: usize) -> (String, usize, f64, bool, Vec<Vec<u64>>, u64) {
+    let ty = MV_TYPES[(i * 3) % 10].to_string();
+    let mut ops: Vec<Vec<u64>> = vec![vec![9, 70, r.next()], vec![10]];   // (one bulk push: an extend under sync_on_write syncs 70 times)
+    let last: Vec<u64> = match i % 11 {
+        0 => vec![0, 5], 1 => vec![1], 2 => vec![3, 9], 3 => vec![4], 4 => vec![7, 90, 3], 5 => vec![8, 5, r.next()], 6 => vec![9, 70, r.next()],
+        7 => vec![12, 40, r.next()], 8 => vec![13, 65], 9 => vec![14, 2, 69, 7], _ => vec![19, 30, r.next()] };
+    ops.push(last);
+    ops.push(vec![18]);
+    // created with sync_on_write, or switched to it by reopening with the persistent_cache preset / the builder's configuration
+    match i % 3 { 0 => (ty, 16, 1.618, true, ops, 0), 1 => { ops.insert(2, vec![17, 3]); (ty, 16, 1.5, false, ops, 0) } _ => (ty, 0, 2.0, false, ops, 7) }
 }
 /// sizes that cross the 64 KiB minimum mapping of a vector file (beyond it the mapping is exactly as long as the file) and
 /// the 8192 / 16384-element presets: bulk operations and growth across the boundary, then sync, reopen, read everything
@@ -1415,11 +1445,12 @@ fn plain_case_in(cx: &mut Ctx, ops: &[Value], leftover: usize, exhaustive: bool,
                        if st.len() != shadow.len() || st.is_empty() != shadow.is_empty() { problem = Some(format!("op {}: len() = {}, {} records are live", k, st.len(), shadow.len())); return; }
                        for (id, d) in &shadow { if !st.contains(*id) || st.size(*id).ok().flatten() != Some(d.len()) { problem = Some(format!("op {}: contains/size of record {} disagree with the record put", k, id)); return; } }
                        if st.flush().is_err() || st.base_dir() != std::path::Path::new(&sdir) { problem = Some(format!("op {}: flush()/base_dir()", k)); return; } }
+                7 if shadow.len() > 10 => {}     // (every subset of the records is a crash state of create_new: keep them enumerable)
                 7 => { modelled = false; drop(st);
                        // an interrupted create_new has removed some of the records: every subset of them is a boundary
                        let before = marks.last().copied().unwrap_or(0);
                        let live: Vec<u32> = shadow.keys().copied().collect();
-                       if live.len() <= 7 { for m in 1u32..(1 << live.len()) - 1 { let mut s2 = shadow.clone(); for (j, id) in live.iter().enumerate() { if m >> j & 1 == 1 { s2.remove(id); } } states.push(st_json(&s2)); marks.push(before); } }
+                       { for m in 1u32..(1 << live.len()) - 1 { let mut s2 = shadow.clone(); for (j, id) in live.iter().enumerate() { if m >> j & 1 == 1 { s2.remove(id); } } states.push(st_json(&s2)); marks.push(before); } }
                        st = match PlainBlobStore::create_new(&sdir) { Ok(s) => s, Err(e) => { problem = Some(e.to_string()); return; } }; shadow.clear(); }
                 _ => {}
             }
@@ -1480,7 +1511,10 @@ fn gen_plain_wide(r: &mut Rng) -> Vec<Value> {
         match r.below(12) {
             0..=1 => ops.push(json!([0, rec(r)])),
             2..=4 => { let k = *r.pick(&[0usize, 1, 2, 3, 5]); let v: Vec<String> = (0..k).map(|_| rec(r)).collect(); ops.push(json!([4, v])); }
-            5..=6 => { let k = r.range(0, 4); let v: Vec<u64> = (0..k).map(|_| if r.chance(1, 4) { *r.pick(&[100u64, 4294967295, 1000]) } else { r.below(6) }).collect(); ops.push(json!([5, v])); }
+            5..=6 => { let k = r.range(0, 4); let mut v: Vec<u64> = (0..k).map(|_| if r.chance(1, 4) { *r.pick(&[100u64, 4294967295, 1000]) } else { r.below(6) }).collect();
+                       // an id that is not there in front of ones that are; the same record twice
+                       match r.below(4) { 0 => v.insert(0, 1000), 1 => { if let Some(&x) = v.first() { v.push(x); } } _ => {} }
+                       ops.push(json!([5, v])); }
             7 => ops.push(json!([6])),
             8 => ops.push(json!([1, r.below(8)])),
             9 => ops.push(json!([2])),
@@ -2137,6 +2171,10 @@ pub fn run(args: &Args) {
             let ex = i % 22 == 5;
             run_mv_ty(&mut cx, &ty, if ex { ic.min(130) } else { ic }, g, sow, if ex { &ops[..ops.len().min(6)] } else { &ops }, ex && preset == 0, preset);
         }
+        for i in 0..(if args.thorough { 33 } else { 11 }) {
+            let (ty, ic, g, sow, ops, preset) = gen_mv_sow(&mut rng, i as usize);
+            run_mv_ty(&mut cx, &ty, ic, g, sow, &ops, false, preset);
+        }
         for i in 0..(if args.thorough { 16 } else { 8 }) {
             let (ty, ic, g, sow, ops, preset) = gen_mv_big(&mut rng, i as usize);
             run_mv_ty(&mut cx, &ty, ic, g, sow, &ops, false, preset);
@@ -2152,7 +2190,11 @@ pub fn run(args: &Args) {
             if i == 0 { cx.sum.sample(json!({"plain_wide": o})); }
             let leftover = if i % 4 == 1 { *rng.pick(&[1usize, 50, 5000]) } else { 0 };
             let foreign: Vec<String> = if i % 4 == 2 { ["x", ".7.tmp.bak", "007", "+3", "1.tmp", "0x2"].iter().filter(|_| rng.chance(1, 2)).map(|s| s.to_string()).collect() } else { vec![] };
-            plain_case_in(&mut cx, &o, leftover, i % 12 == 7 && leftover == 0, &foreign);
+            let ex = i % 12 == 7 && leftover == 0;
+            // every byte position: keep the records small
+            let trim = |h: &Value| -> Value { let t = h.as_str().unwrap_or(""); json!(t[..t.len().min(80)].to_string()) };
+            let o: Vec<Value> = if ex { o.into_iter().map(|mut op| { if op[0] == json!(0) { op[1] = trim(&op[1]); } else if op[0] == json!(4) { let v: Vec<Value> = op[1].as_array().map(|a| a.iter().map(|h| trim(h)).collect()).unwrap_or_default(); op[1] = json!(v); } op }).collect() } else { o };
+            plain_case_in(&mut cx, &o, leftover, ex, &foreign);
         }
         for i in 0..(22 * scale) {
             let (recs, ck) = gen_zip(&mut rng, i as usize);
